@@ -870,6 +870,11 @@ impl Scenario for ExportScenario {
                 // user lexicon arrives
                 plan.ops.push(Op::new("Gen"));
             }
+            if rng.chance(1, 3) {
+                // the model goes through write_model / read_model first, as when the train tool
+                // saves it and the dictgen tool loads it
+                plan.ops.push(Op::new("Reload"));
+            }
             plan.ops.push(Op::new("AddUser").fault("user.csv", gen_benign(rng, 64)));
         }
         plan.ops.push(Op::new("Gen"));
@@ -901,6 +906,21 @@ impl Scenario for ExportScenario {
         let mut reference: Option<DictFiles> = None;
         for op in &plan.ops {
             match op.kind.as_str() {
+                "Reload" => {
+                    let mut bytes = vec![];
+                    match catch(|| model.write_model(&mut bytes).map_err(|e| e.to_string())) {
+                        Ok(Ok(_)) => {}
+                        Ok(Err(e)) => return Err(Violation::new("C14.reload.write", format!("write_model failed: {e}"))),
+                        Err(p) => return Err(panic_violation("C14.reload", "write_model", &p)),
+                    }
+                    model = match catch(|| Model::read_model(bytes.as_slice()).map_err(|e| e.to_string())) {
+                        Ok(Ok(m)) => m,
+                        Ok(Err(e)) => return Err(Violation::new("C14.reload.read", format!("read_model rejected what write_model wrote: {e}"))),
+                        Err(p) => return Err(panic_violation("C14.reload", "read_model", &p)),
+                    };
+                    ctx.count("probe.model_reloaded_before_export");
+                    ctx.event("reload", "ok");
+                }
                 "AddUser" => {
                     let f = op.get_fault("user.csv");
                     let mut rdr = FaultyReader::new(plan.file("user.csv"), &f);
@@ -996,7 +1016,7 @@ impl Scenario for ExportScenario {
     fn describe(&self) -> ScenarioInfo {
         ScenarioInfo {
             level: "exploration",
-            rule: "one seeded run = a seeded trainer world (seed lexicon 4-12 rows with homographs and quoted features, unk.def 1-2 rows per category in shuffled file order, 1-5 unigram and 1-6 bigram templates with optional references, seeded rewrite rules, corpus of 1-6 sentences with known, unknown-compatible and virtual-edge words, max_iter 5-30, one thread) trained with the real trainer; optional read_user_lexicon (rows given as 0,0,0 and rows with explicit parameters); write_dictionary fault-free (compared field by field with the reference image recomputed from RawModel::merge(): row order, surfaces, verbatim features, merged class ids, header dimensions, every cost == trunc(-w*32767/max|w|), matrix entry set and order, user rows), through short-write/EINTR sinks (identical bytes), and with a hard fault at a seeded offset of one of the four sinks (must return Err, never Ok with a short file); the emitted files are read back through benign-faulty readers and must compile, the emitted user file must load. Added later: user rows that duplicate a seed word (1 world in 3; such a row given as 0,0,0 must get the seed word's cost and a matrix row/column with the same costs), user rows with ids 0,0 and a non-zero cost (kept), a CR inside a surface (1 in 40), empty feature columns, unigram/bigram templates without literal text or with placeholders of another kind, 1 world in 10 with 10-15 bigram templates; sinks by &mut or owned BufWriter/LineWriter. distinct_nontrivial = distinct plan hashes of runs whose training succeeded and that made >= 1 comparison",
+            rule: "one seeded run = a seeded trainer world (seed lexicon 4-12 rows with homographs and quoted features, unk.def 1-2 rows per category in shuffled file order, 1-5 unigram and 1-6 bigram templates with optional references, seeded rewrite rules, corpus of 1-6 sentences with known, unknown-compatible and virtual-edge words, max_iter 5-30, one thread) trained with the real trainer; optional read_user_lexicon (rows given as 0,0,0 and rows with explicit parameters); write_dictionary fault-free (compared field by field with the reference image recomputed from RawModel::merge(): row order, surfaces, verbatim features, merged class ids, header dimensions, every cost == trunc(-w*32767/max|w|), matrix entry set and order, user rows), through short-write/EINTR sinks (identical bytes), and with a hard fault at a seeded offset of one of the four sinks (must return Err, never Ok with a short file); the emitted files are read back through benign-faulty readers and must compile, the emitted user file must load. Added later: user rows that duplicate a seed word (1 world in 3; such a row given as 0,0,0 must get the seed word's cost and a matrix row/column with the same costs), user rows with ids 0,0 and a non-zero cost (kept), a CR inside a surface (1 in 40), empty feature columns, unigram/bigram templates without literal text or with placeholders of another kind, 1 world in 10 with 10-15 bigram templates; sinks by &mut or owned BufWriter/LineWriter. Round 5: 1 run in 3 of those with a user lexicon sends the model through write_model/read_model first (the train -> dictgen flow). distinct_nontrivial = distinct plan hashes of runs whose training succeeded and that made >= 1 comparison",
             assumptions: vec![
                 "rucrf's RawModel::merge() is the trusted definition of the merged classes and weights",
                 "costs are accepted under either floating evaluation order of -w*32767/max|w|",
@@ -1009,6 +1029,7 @@ impl Scenario for ExportScenario {
                 "probe.user_row_trained",
                 "probe.user_row_kept",
                 "probe.user_row_duplicates_seed_word",
+                "probe.model_reloaded_before_export",
                 "probe.words_sharing_a_class",
                 "probe.max_weight_is_unigram",
                 "probe.max_weight_is_matrix_entry",
@@ -1428,9 +1449,13 @@ impl Scenario for SmallDicScenario {
         // a user lexicon before generating: its words (also words with features never seen in
         // training) get classes of their own in matrix.def and in the bigram files
         if rng.chance(1, 3) {
+            if rng.chance(1, 2) {
+                plan.ops.push(Op::new("Gen")); // an export before the user lexicon arrives
+            }
             plan.ops.push(Op::new("AddUser"));
         }
-        plan.ops.push(Op::new("Gen"));
+        // the two groups of files are written in either order
+        plan.ops.push(Op::new(if rng.chance(1, 3) { "GenReverse" } else { "Gen" }));
         plan.ops.push(
             Op::new("GenBenign")
                 .fault("bigram.left", gen_benign(rng, 512))
@@ -1483,6 +1508,17 @@ impl Scenario for SmallDicScenario {
                         Ok(Err(e)) => return Err(Violation::new("C16.user.rejected", format!("valid user lexicon rejected: {e}"))),
                         Err(p) => return Err(panic_violation("C16.user", "read_user_lexicon", &p)),
                     }
+                }
+                "GenReverse" => {
+                    // write_bigram_details before write_dictionary
+                    let gap = rucrf_gap(&model);
+                    let (o, b) = write_bigram_details(&mut model, None, ctx);
+                    must_ok("C16.gen.bigram", "write_bigram_details", o, gap, ctx)?;
+                    let (o, d) = write_dictionary(&mut model, None, ctx);
+                    must_ok("C16.gen.dict", "write_dictionary", o, gap, ctx)?;
+                    generated = Some((d, b));
+                    ctx.count("probe.bigram_details_before_dictionary");
+                    ctx.event("gen (bigram files first)", "ok");
                 }
                 "Gen" => {
                     generated = Some(gen_all(&mut model, ctx, "C16.gen")?);
@@ -1657,7 +1693,7 @@ impl Scenario for SmallDicScenario {
     fn describe(&self) -> ScenarioInfo {
         ScenarioInfo {
             level: "exploration",
-            rule: "one seeded run = a seeded trainer world trained with the real trainer; write_dictionary + write_bigram_details onto the simulated disk (fault-free; through short-write/EINTR sinks: identical; with a hard fault at a seeded offset of one of the three bigram sinks: must return Err); the emitted files are read back through benign-faulty readers and compiled three ways - matrix.def, raw connector, dual connector under two seeded template splits (hook H5). For every id pair incl. id 0: dual == raw, |raw - matrix| <= K+1 (K = number of bigram templates), and all dictionaries have the same numbers of left and right ids. Added later: 1 run in 3 reads the user lexicon before generating (classes of user words, also of words with features never seen in training, are compared like all others); dual == raw is required where the negative and positive per-template costs of the pair each fit 16 bits; 1 world in 10 has 10-15 templates. distinct_nontrivial = distinct plan hashes of runs whose training succeeded with >= 1 comparison",
+            rule: "one seeded run = a seeded trainer world trained with the real trainer; write_dictionary + write_bigram_details onto the simulated disk (fault-free; through short-write/EINTR sinks: identical; with a hard fault at a seeded offset of one of the three bigram sinks: must return Err); the emitted files are read back through benign-faulty readers and compiled three ways - matrix.def, raw connector, dual connector under two seeded template splits (hook H5). For every id pair incl. id 0: dual == raw, |raw - matrix| <= K+1 (K = number of bigram templates), and all dictionaries have the same numbers of left and right ids. Added later: 1 run in 3 reads the user lexicon before generating (classes of user words, also of words with features never seen in training, are compared like all others); dual == raw is required where the negative and positive per-template costs of the pair each fit 16 bits; 1 world in 10 has 10-15 templates. Round 5: an export may precede the user lexicon, and 1 run in 3 writes the bigram files before the dictionary files. distinct_nontrivial = distinct plan hashes of runs whose training succeeded with >= 1 comparison",
             assumptions: vec![
                 "feature values contain no '/' or tab (they would not survive the bigram.cost line format)",
                 "worlds whose training fails or panics inside rucrf/argmin are skipped (counted)",
@@ -1667,6 +1703,7 @@ impl Scenario for SmallDicScenario {
             probes: vec![
                 "probe.nonzero_rounding_difference",
                 "probe.user_lexicon_before_generation",
+                "probe.bigram_details_before_dictionary",
                 "probe.at_least_2_classes_per_side",
                 "probe.bigram_cost_over_8k",
                 "fault.short_transfer",
